@@ -98,6 +98,8 @@ def enc_out(o) -> str:
         return "q:%d/%d" % (o.numerator, o.denominator)
     if isinstance(o, float):
         return "f:" + repr(o)
+    if type(o).__name__ == "Decimal":
+        return "d:" + str(o)
     try:
         import numpy as np
 
@@ -119,6 +121,10 @@ def dec_out(s: str):
         return Fraction(int(a), int(b))
     if t == "f":
         return float(v)
+    if t == "d":
+        import decimal
+
+        return decimal.Decimal(v)
     if t == "n":
         import numpy as np
 
